@@ -121,4 +121,42 @@ example : ∃ out, iterAll okH2 6 "m" = .ok out := by
   rcases hm with e | e | e | e <;> subst e <;> simp_all [Blk.isRegion, BKind.isRegion]
   exact ⟨["1"], okH2_inner⟩
 
+/-- `find_head` answers on container `c` and, to nesting depth `f`, on every region below it -/
+def headsOKB (H : Hier) : Nat → Name → Bool
+  | 0, _ => false
+  | f + 1, c => (match findHead H c with | .ok _ => true | .error _ => false) &&
+      (H.level c).all fun b => !b.isRegion || headsOKB H f b.name
+
+/-- **the only ways the model of `__iter__` can fail are `find_head` and the nesting fuel**: if
+    `find_head` answers on the container and on every region below it down to depth `f`, the
+    iterator model answers — for every hierarchy. -/
+theorem iterAll_total : ∀ (H : Hier) (f : Nat) (c : Name), headsOKB H f c = true →
+    ∃ out, iterAll H f c = .ok out := by
+  intro H f
+  induction f with
+  | zero => intro c h; simp [headsOKB] at h
+  | succ f ih =>
+    intro c h
+    simp only [headsOKB, Bool.and_eq_true, List.all_eq_true] at h
+    obtain ⟨h1, h2⟩ := h
+    cases hh : findHead H c with
+    | error e => simp [hh] at h1
+    | ok hd =>
+      refine iterAll_go_fuel_enough H f c hd hh ?_
+      intro b hb hr
+      have := h2 b hb
+      simp only [hr, Bool.not_true, Bool.false_or] at this
+      exact ih b.name this
+
+/-- non-vacuity of `iterAll_total` -/
+theorem okH2_headsOKB : headsOKB okH2 2 "m" = true := by
+  have e : okH2.level "m" = [okH2[0], okH2[1], okH2[2]] := by decide
+  have e2 : okH2.level "loop_region_0" = [okH2[3]] := by decide
+  have r0 : (okH2[0]).isRegion = false := by decide
+  have r1 : (okH2[1]).isRegion = false := by decide
+  have r2 : (okH2[2]).isRegion = true := by decide
+  have r3 : (okH2[3]).isRegion = false := by decide
+  have n2 : (okH2[2]).name = "loop_region_0" := by decide
+  simp [headsOKB, head_m, head_l, e, e2, r0, r1, r2, r3, n2]
+
 end Scfg.C16
